@@ -841,6 +841,10 @@ func FromV3SchemaRef(schema *openapi3.SchemaRef, components *openapi3.Components
 				v2Ref := strings.Replace(ref, "#/components/schemas/", "#/parameters/", 1)
 				return nil, &openapi2.Parameter{Ref: v2Ref}
 			}
+			if _, ok := val.Value.Extensions["x-formData-name"].(string); ok {
+				v2Ref := strings.Replace(ref, "#/components/schemas/", "#/parameters/", 1)
+				return nil, &openapi2.Parameter{Ref: v2Ref}
+			}
 		}
 
 		return &openapi2.SchemaRef{Ref: FromV3Ref(ref)}, nil
@@ -878,6 +882,45 @@ func FromV3SchemaRef(schema *openapi3.SchemaRef, components *openapi3.Components
 				MaxLength:    schema.Value.MaxLength,
 				Default:      schema.Value.Default,
 				// Items:           schema.Value.Items,
+				MinItems:        schema.Value.MinItems,
+				MaxItems:        schema.Value.MaxItems,
+				AllowEmptyValue: schema.Value.AllowEmptyValue,
+				UniqueItems:     schema.Value.UniqueItems,
+				MultipleOf:      schema.Value.MultipleOf,
+				Extensions:      stripNonExtensions(schema.Value.Extensions),
+				Required:        required,
+			}
+		}
+
+		// A shared form parameter that ToV3 kept as a component schema
+		if originalName, ok := schema.Value.Extensions["x-formData-name"].(string); ok {
+			required := false
+			for _, prop := range schema.Value.Required {
+				if originalName == prop {
+					required = true
+					break
+				}
+			}
+			var v2Items *openapi2.SchemaRef
+			if schema.Value.Items != nil {
+				v2Items, _ = FromV3SchemaRef(schema.Value.Items, components)
+			}
+			return nil, &openapi2.Parameter{
+				In:              "formData",
+				Name:            originalName,
+				Description:     schema.Value.Description,
+				Type:            schema.Value.Type,
+				Format:          schema.Value.Format,
+				Enum:            schema.Value.Enum,
+				Minimum:         schema.Value.Min,
+				Maximum:         schema.Value.Max,
+				ExclusiveMin:    schema.Value.ExclusiveMin,
+				ExclusiveMax:    schema.Value.ExclusiveMax,
+				MinLength:       schema.Value.MinLength,
+				MaxLength:       schema.Value.MaxLength,
+				Pattern:         schema.Value.Pattern,
+				Default:         schema.Value.Default,
+				Items:           v2Items,
 				MinItems:        schema.Value.MinItems,
 				MaxItems:        schema.Value.MaxItems,
 				AllowEmptyValue: schema.Value.AllowEmptyValue,
